@@ -23,7 +23,8 @@ const KS: usize = 8;
 struct DmgJ { kind: String, rec: u64, region: String }
 
 #[derive(Debug, Clone, Deserialize)]
-struct CaseJ { n: u64, dmg: DmgJ, validate: String, fails: bool, plain: Vec<Vec<u64>>, skip: Vec<Vec<u64>> }
+struct CaseJ { n: u64, dmg: DmgJ, validate: String, fails: bool, plain: Vec<Vec<u64>>, skip: Vec<Vec<u64>>,
+               #[serde(default)] ivalidate: String, #[serde(default)] iread: String, #[serde(default)] migrate: String }
 
 fn arg_flag(name: &str) -> bool { std::env::args().any(|a| a == name) }
 
@@ -102,6 +103,80 @@ async fn make_blob(dir: &Path, n: u64) -> Result<(), String> {
 
 /// records (by number) that the storage serves from `blob` with their original bytes
 async fn served(blob: &Path, scratch: &Path, n: u64) -> Result<Vec<u64>, String> {
+    served_keys(blob, scratch, n, false).await
+}
+
+fn rec_key(i: u64, reversed: bool) -> ArrayKey<KS> {
+    let k = key_bytes::<KS>(2 * i);
+    if !reversed { return k; }
+    let mut b: Vec<u8> = AsRef::<[u8]>::as_ref(&k).to_vec();
+    b.reverse();
+    let mut a = [0u8; KS];
+    a.copy_from_slice(&b);
+    ArrayKey::from(a)
+}
+
+/// byte range of a region of the index file
+fn idx_region(region: &str, idx: &[u8]) -> (u64, u64) {
+    let ms = u64::from_le_bytes(idx[24..32].try_into().unwrap());
+    let len = idx.len() as u64;
+    match region {
+        "imagic" => (0, 8), "icount" => (8, 16), "irhsize" => (16, 24), "imetasize" => (24, 32), "ihashlen" => (32, 40),
+        "ihash" => (40, 72), "iversion" => (72, 73), "ikeysize" => (73, 75), "iblobsize" => (75, 83),
+        "ifilters" => (83, 83 + ms), "itreemeta" => (83 + ms, 83 + ms + 16), "ibody" => (83 + ms + 16, len),
+        _ => (0, 0),
+    }
+}
+
+/// the record headers of the pristine blob, as the JSON rendering of pearl's record header
+fn blob_headers(blob: &[u8], n: u64) -> std::collections::BTreeMap<Vec<u8>, Vec<Value>> {
+    let mut m = std::collections::BTreeMap::new();
+    let u64at = |p: u64| u64::from_le_bytes(blob[p as usize..p as usize + 8].try_into().unwrap());
+    let u32at = |p: u64| u32::from_le_bytes(blob[p as usize..p as usize + 4].try_into().unwrap());
+    let k = KS as u64;
+    for l in layouts(n) {
+        let h = l.off;
+        let key = blob[(h + 16) as usize..(h + 16 + k) as usize].to_vec();
+        let v = json!({"magic_byte": u64at(h), "key": key, "meta_size": u64at(h + 16 + k), "data_size": u64at(h + 24 + k), "flags": blob[(h + 32 + k) as usize],
+                       "blob_offset": u64at(h + 33 + k), "timestamp": u64at(h + 41 + k), "data_checksum": u32at(h + 49 + k), "header_checksum": u32at(h + 53 + k)});
+        m.entry(key).or_insert_with(Vec::new).push(v);
+    }
+    m
+}
+
+/// validate_index / read_index on one (possibly damaged) index file next to `blob` (None: no blob)
+fn index_case(c: &CaseJ, work: &Path, blob: Option<&[u8]>, idx: &[u8], pristine_blob: &[u8]) -> Vec<Value> {
+    let mut mm = Vec::new();
+    let _ = std::fs::remove_dir_all(work);
+    std::fs::create_dir_all(work).unwrap();
+    if let Some(b) = blob { std::fs::write(blob_path(work, 0), b).unwrap(); }
+    let ip = index_path(work, 0);
+    std::fs::write(&ip, idx).unwrap();
+    let ip2 = ip.clone();
+    let v = std::panic::catch_unwind(move || pearl::tools::validate_index::<ArrayKey<KS>>(&ip2));
+    match v {
+        Err(_) => mm.push(json!({"tool": "validate_index", "expected": c.ivalidate, "got": "panic"})),
+        Ok(r) => {
+            let got = if r.is_ok() { "accept" } else { "reject" };
+            if got != c.ivalidate { mm.push(json!({"tool": "validate_index", "expected": c.ivalidate, "got": got, "err": r.err().map(|e| format!("{e:#}"))})); }
+        }
+    }
+    let ip2 = ip.clone();
+    let r = std::panic::catch_unwind(move || pearl::tools::read_index_sync(&ip2));
+    match r {
+        Err(_) => mm.push(json!({"tool": "read_index", "expected": c.iread, "got": "panic"})),
+        Ok(Err(e)) => if c.iread == "exact" { mm.push(json!({"tool": "read_index", "expected": "exact", "got": format!("err: {e:#}")})); },
+        Ok(Ok(map)) => {
+            let got: std::collections::BTreeMap<Vec<u8>, Vec<Value>> = map.into_iter().map(|(k, hs)| (k, hs.iter().map(|h| serde_json::to_value(h).unwrap_or(Value::Null)).collect())).collect();
+            let want = blob_headers(pristine_blob, c.n);
+            if c.iread != "exact" { mm.push(json!({"tool": "read_index", "expected": "error", "got": format!("ok with {} keys", got.len())})); }
+            else if got != want { mm.push(json!({"tool": "read_index", "expected": "the headers of the blob", "got": format!("{:?}", got).chars().take(300).collect::<String>()})); }
+        }
+    }
+    mm
+}
+
+async fn served_keys(blob: &Path, scratch: &Path, n: u64, reversed: bool) -> Result<Vec<u64>, String> {
     let _ = std::fs::remove_dir_all(scratch);
     std::fs::create_dir_all(scratch).map_err(|e| e.to_string())?;
     std::fs::copy(blob, blob_path(scratch, 0)).map_err(|e| e.to_string())?;
@@ -117,7 +192,7 @@ async fn served(blob: &Path, scratch: &Path, n: u64) -> Result<Vec<u64>, String>
     let mut v = Vec::new();
     for i in 1..=n {
         let (m, len) = rec_shape(i);
-        let key = key_bytes::<KS>(2 * i);
+        let key = rec_key(i, reversed);
         match st.read(&key).await {
             Ok(ReadResult::Found(b)) if &b[..] == &payload(i, len)[..] => {
                 // metadata as written, too
@@ -166,6 +241,86 @@ fn main() {
         if pristine.len() as u64 != total {
             eprintln!("layout mismatch: file {} model {}", pristine.len(), total);
             std::process::exit(2);
+        }
+        let emit = |failed: &mut u64, label: &str, mm: Vec<Value>| {
+            if !mm.is_empty() {
+                *failed += 1;
+                println!("MISMATCH {}", json!({"case": {"n": c.n, "dmg": {"kind": c.dmg.kind, "rec": c.dmg.rec, "region": c.dmg.region}, "variant": label}, "mismatches": mm}));
+            }
+        };
+        // ---- index tools ------------------------------------------------------------------------------
+        if !c.ivalidate.is_empty() {
+            let idx = std::fs::read(index_path(&src_dir, 0)).expect("pristine index");
+            let work = root.join("wi");
+            let mut vs: Vec<(String, Option<Vec<u8>>, Vec<u8>)> = Vec::new();
+            match c.dmg.kind.as_str() {
+                "inone" => vs.push(("inone".into(), Some(pristine.clone()), idx.clone())),
+                "inoblob" => vs.push(("inoblob".into(), None, idx.clone())),
+                "iextend" => for extra in [1usize, 83, 4096] { let mut b = idx.clone(); b.extend(std::iter::repeat(0u8).take(extra)); vs.push((format!("extend+{extra}"), Some(pristine.clone()), b)); },
+                "istale" => {
+                    if c.dmg.region == "longer" { let mut b = pristine.clone(); b.extend_from_slice(&[0u8; 10]); vs.push(("stale-longer".into(), Some(b), idx.clone())); }
+                    else { vs.push(("stale-shorter".into(), Some(pristine[..pristine.len() - 1].to_vec()), idx.clone())); }
+                }
+                "iflip" => {
+                    let (lo, hi) = idx_region(&c.dmg.region, &idx);
+                    for p in positions(lo, hi, dense) { for x in [0x01u8, 0x80, 0xff] { let mut b = idx.clone(); b[p as usize] ^= x; vs.push((format!("iflip@{p}^{x:02x}"), Some(pristine.clone()), b)); } }
+                }
+                "itrunc" => {
+                    let (lo, hi) = idx_region(&c.dmg.region, &idx);
+                    for p in positions(lo, hi, dense) { vs.push((format!("itrunc@{p}"), Some(pristine.clone()), idx[..p as usize].to_vec())); }
+                }
+                _ => {}
+            }
+            for (label, blob, ib) in vs {
+                variants += 1;
+                let mm = index_case(&c, &work, blob.as_deref(), &ib, &pristine);
+                emit(&mut failed, &label, mm);
+            }
+            continue;
+        }
+        // ---- migration --------------------------------------------------------------------------------
+        if !c.migrate.is_empty() {
+            let (from, to) = ((c.dmg.rec / 10) as u32, (c.dmg.rec % 10) as u32);
+            let work = root.join("wm");
+            for validate_every in [0usize, 1] {
+                variants += 1;
+                let _ = std::fs::remove_dir_all(&work);
+                std::fs::create_dir_all(&work).unwrap();
+                let mut mm: Vec<Value> = Vec::new();
+                let mut img = pristine.clone();
+                img[8..12].copy_from_slice(&from.to_le_bytes());
+                let input = work.join("in.blob");
+                let out = work.join("out.blob");
+                std::fs::write(&input, &img).unwrap();
+                let (i2, o2) = (input.clone(), out.clone());
+                let r = std::panic::catch_unwind(move || pearl::tools::migrate_blob(&i2, &o2, validate_every, to));
+                match (r, c.migrate.as_str()) {
+                    (Err(_), _) => mm.push(json!({"tool": "migrate_blob", "expected": c.migrate, "got": "panic"})),
+                    (Ok(Err(_)), "error") => {}
+                    (Ok(Ok(())), "error") => mm.push(json!({"tool": "migrate_blob", "expected": "error", "got": "ok"})),
+                    (Ok(Err(e)), _) => mm.push(json!({"tool": "migrate_blob", "expected": c.migrate, "got": format!("err: {e:#}")})),
+                    (Ok(Ok(())), want) => {
+                        if std::fs::read(&input).unwrap_or_default() != img { mm.push(json!({"tool": "migrate_blob", "expected": "input untouched", "got": "input changed"})); }
+                        if let Err(e) = pearl::tools::validate_blob(&out) { mm.push(json!({"tool": "migrate_blob", "expected": "output validates", "got": format!("{e:#}")})); }
+                        let ob = std::fs::read(&out).unwrap_or_default();
+                        // metadata is a hash map: its entries may be written in another order (nothing else may differ)
+                        let mask = |b: &[u8]| { let mut b = b.to_vec(); for l in lay.iter() { let (lo, hi) = region_range(l, "meta"); for p in lo..hi.min(b.len() as u64) { b[p as usize] = 0; } } b };
+                        if want == "same" && (ob.len() != img.len() || mask(&ob) != mask(&img)) { mm.push(json!({"tool": "migrate_blob", "expected": "output equal to the input outside the metadata maps (nothing to migrate)", "got": format!("{} bytes, input {}", ob.len(), img.len())})); }
+                        if ob.len() >= 12 && u32::from_le_bytes(ob[8..12].try_into().unwrap()) != from.max(to) { mm.push(json!({"tool": "migrate_blob", "expected": format!("version {}", from.max(to)), "got": "other version in the output header"})); }
+                        if from.max(to) == 1 {
+                            let scratch = work.join("st");
+                            let (o3, s3, n) = (out.clone(), scratch.clone(), c.n);
+                            let reversed = want == "reversed";
+                            match rt.block_on(async move { served_keys(&o3, &s3, n, reversed).await }) {
+                                Ok(set) => { let all: Vec<u64> = (1..=c.n).collect(); if set != all { mm.push(json!({"tool": "migrate_blob", "expected": "every record served with its bytes and metadata", "served": set, "reversed_keys": reversed})); } }
+                                Err(e) => mm.push(json!({"tool": "migrate_blob+storage", "got": e})),
+                            }
+                        }
+                    }
+                }
+                emit(&mut failed, &format!("migrate {from}->{to} validate_every={validate_every}"), mm);
+            }
+            continue;
         }
         // expand the abstract damage
         let mut imgs: Vec<(String, Vec<u8>)> = Vec::new();
